@@ -1010,7 +1010,9 @@ fn enumerate_proofs(
         upper_bound: 1.0,
         sequence,
     });
-    let mut emitted: Vec<Proof> = Vec::with_capacity(cap);
+    // `cap` is k + 1 from the configuration and may be astronomically large
+    // (k_max = usize::MAX is valid): grow on demand instead of pre-allocating it.
+    let mut emitted: Vec<Proof> = Vec::with_capacity(cap.min(64));
 
     while let Some(mut state) = frontier.pop() {
         if clock.now() >= deadline {
